@@ -38,16 +38,18 @@ void h_verify(void) {
     __CPROVER_assert(ret == 0 || ret == 1, "C02 verify: returns 0 or 1");
     __CPROVER_assert(g_error == 0, "C02 verify: error callback never invoked");
     args_ok = use_sig && use_pk && (msg != NULL || msglen == 0);
-    if (!args_ok) __CPROVER_assert(ret == 0 && g_illegal == 1 && g_ecmult_n == 0, "C02 verify: NULL argument reports illegal use and returns 0");
-    if (args_ok && r >= p) __CPROVER_assert(ret == 0 && g_ecmult_n == 0, "C02 verify: r >= p is rejected");
-    if (args_ok && s >= n) __CPROVER_assert(ret == 0 && g_ecmult_n == 0, "C02 verify: s >= n is rejected");
-    if (args_ok && px == 0) __CPROVER_assert(ret == 0 && g_ecmult_n == 0, "C02 verify: invalid public key object (x = 0) is rejected");
+    /* rejections: only the result is demanded (no order of checks, no call counts) */
+    if (!args_ok) __CPROVER_assert(ret == 0 && g_illegal >= 1, "C02 verify: NULL argument reports illegal use and returns 0");
+    if (args_ok && r >= p) __CPROVER_assert(ret == 0, "C02 verify: r >= p is rejected");
+    if (args_ok && s >= n) __CPROVER_assert(ret == 0, "C02 verify: s >= n is rejected");
+    if (args_ok && px == 0) __CPROVER_assert(ret == 0, "C02 verify: invalid public key object (x = 0) is rejected");
     gates = args_ok && r < p && s < n && px != 0;
-    __CPROVER_assert(g_chal_n == (gates ? 1 : 0) && g_ecmult_n == (gates ? 1 : 0) && g_sg_n == (gates ? 1 : 0), "C02 verify: exactly one challenge, one ecmult, one affine conversion iff all range gates pass");
     if (gates) {
         wide ev = sval(&g_chal_e);
+        /* once every range gate passes the verdict depends on R, so the three oracles are needed exactly once */
+        __CPROVER_assert(g_chal_n == 1 && g_ecmult_n == 1 && g_sg_n == 1 && g_chal_hit, "C02 verify: one challenge, one ecmult, one affine conversion when all range gates pass");
         __CPROVER_assert(g_illegal == 0, "C02 verify: no callback on well-formed arguments");
-        __CPROVER_assert(g_chal_hit && g_chal_r32p == &sig[0] && g_chal_msgp == msg && g_chal_msglen == msglen && g_chal_hc == &ctx.hash_ctx, "C02 verify: challenge receives sig64[0..32), the caller's msg pointer and exactly msglen");
+        __CPROVER_assert(be256(g_chal_r32) == r && g_chal_msgp == msg && g_chal_msglen == msglen, "C02 verify: challenge receives the bytes sig64[0..32), the caller's msg and exactly msglen");
         __CPROVER_assert(be256(g_chal_pk) == px, "C02 verify: challenge receives be(x(pk))");
         __CPROVER_assert(g_ecmult_has_na0 && g_ecmult_has_ng0 && sval(&g_ecmult_ng0) == s, "C02 verify: G multiplier is s = sig64[32..64)");
         __CPROVER_assert(sval(&g_ecmult_na0) == (ev == 0 ? 0 : n - ev), "C02 verify: P multiplier is -e for the e returned by challenge");
